@@ -100,3 +100,45 @@ Proof.
   apply wiring_drain; [exact Hb1|apply Nat.lt_succ_diag_r].
 Qed.
 Print Assumptions C17_wiring.
+
+(* ---- tie to the source: the integer literals of the functions this property's model stands for
+   (private constants, bounds, unit factors; the files are SiteMap.files_C17) are today the ones the
+   model was written against. Gen/Sites.v num_literals is regenerated from /repo on every run; a
+   changed, added or removed number in a modelled function breaks this obligation ---- *)
+Require RV.Gen.Sites RV.Model.SiteMap.
+Theorem C17_literals_reviewed : RV.Model.SiteMap.literals_ok RV.Model.SiteMap.files_C17.
+Proof. repeat constructor. Qed.
+Print Assumptions C17_literals_reviewed.
+
+(* ---- the shared statistics queue between the workers and the reporter ----
+   (ArrayQueue of capacity 2 * num_workers; workers publish with force_push, which evicts the OLDEST
+   snapshot when the queue is full; the reporter pops until empty once per cycle) *)
+
+(* conservation through the queue: for every history of publishes and drains ended by a drain, and
+   every capacity, each per-address sum over ALL published snapshots equals what the reporter merged
+   plus what force_push evicted — a published snapshot is merged or evicted, never both, never neither *)
+Theorem C17_queue_conservation :
+  forall cap ops a k,
+    let '(q, merged, lost) := q_run (mksq cap []) [] [] (ops ++ [QDrain]) in
+    sq_items q = []
+    /\ cs_get k (cm_lookup merged a) + snap_sum k a lost = snap_sum k a (pushed_snaps ops).
+Proof. exact queue_conservation. Qed.
+Print Assumptions C17_queue_conservation.
+
+(* nothing is evicted (so the reporter's sums are exactly the published ones) whenever at most
+   `capacity` snapshots are published between two drains *)
+Theorem C17_queue_lossless :
+  forall cap ops, within_capacity cap 0 ops = true -> snd (q_run (mksq cap []) [] [] ops) = [].
+Proof. exact queue_lossless. Qed.
+Print Assumptions C17_queue_lossless.
+
+(* ... and ONLY then: one publish too many between two drains evicts the oldest snapshot, whose
+   counts never reach the reporter (the queue is lossy by design; with status_interval below about
+   five seconds the workers of a busy server publish faster than the reporter's 1 s cycle drains) *)
+Example C17_queue_overflow_loses_oldest :
+  let s1 := [(1, mkcs 3 0 0 0 0 0 0 0 0)] in
+  let s2 := [(2, mkcs 0 5 0 0 0 0 0 0 0)] in
+  let s3 := [(3, mkcs 0 0 7 0 0 0 0 0 0)] in
+  let '(q, merged, lost) := q_run (mksq 2 []) [] [] [QPush s1; QPush s2; QPush s3; QDrain] in
+  lost = [s1] /\ cm_get merged 1 = None /\ cs_get KClassicReq (cm_lookup merged 2) = 5.
+Proof. vm_compute. repeat split. Qed.
